@@ -38,7 +38,7 @@ def tsan_reports(text):
 def run(tier, replay=None):
     res = common.Result('C11', tier, 'exploration')
     # leg A: ThreadSanitizer, native threads
-    total = 320 if tier == 'quick' else 10000
+    total = 640 if tier == 'quick' else 10000
     exe = common.hbuild('h_tsan', ['h_tsan.cpp'], 'tsan')
     d = common.scratch_dir()
     logbase = os.path.join(d, 'tsan.log')
